@@ -854,6 +854,10 @@ func describeAnyType(expected px.Type, original, actual px.Type, path []*pathEle
 }
 
 func describe(expected px.Type, actual px.Type, path []*pathElement) []mismatch {
+	if px.IsAssignable(expected, actual) {
+		// nothing to describe, also when the expected type contains an unresolved reference
+		return NoMismatch
+	}
 	var unresolved *types.TypeReferenceType
 	expected.Accept(func(t px.Type) {
 		if unresolved == nil {
